@@ -227,7 +227,7 @@ PROPS = {
         'steps': [{'script': 'corr_plan.py', 'timeout': 1500, 'timeout_thorough': 6000},
                   {'script': 'corr_graph.py', 'timeout': 1500, 'timeout_thorough': 6000},
                   {'script': 'oracle_static.py', 'timeout': 1500, 'timeout_thorough': 6000}],
-        'required_theorems': ['C15_compatible_users_agree', 'C15_write_is_consistent',
+        'required_theorems': ['C15_sharers_quantized_in_place_agree', 'C15_compatible_users_agree', 'C15_write_is_consistent',
                               'C15_second_write_same_bytes'],
         'rule': GRAPH_RULE + STATIC_RULE,
         'trusted_base': COMMON_TB + GRAPH_TB,
@@ -329,7 +329,7 @@ PROPS = {
     'C06': {
         'steps': [{'script': 'corr_graph.py', 'timeout': 1500, 'timeout_thorough': 6000},
                   {'script': 'oracle_c06.py', 'timeout': 1500, 'timeout_thorough': 6000}],
-        'required_theorems': ['C06_dequantize_insertion_preserves_meaning',
+        'required_theorems': ['C06_interleaved_graph_preserves_meaning', 'C06_interleaving_check_is_sound', 'C06_dequantize_insertion_preserves_meaning',
                               'C06_performer_dequantize_preserves_meaning',
                               'C06_weight_only_plans_dequantize', 'C06_dynamic_range_partial'],
         'rule': GRAPH_RULE + ('; C06 runtime oracle: generated models biased to weight ops x float-compute recipes '
